@@ -368,11 +368,13 @@ private:
                     nextc();
                     c = current();
                     if (c == '/') {
-                        /* Skip 'dir/../' */
-                        nextc();
-                        skips(false);
-                        while (mPos.l > mRootLength && current() != '/')
+                        /* Skip 'dir/../' (directly under the root: only the '..') */
+                        if (mPos.l > mRootLength) {
                             nextc();
+                            skips(false);
+                            while (mPos.l > mRootLength && current() != '/')
+                                nextc();
+                        }
                         continue;
                     }
                 } else if (c == '/') {
@@ -384,8 +386,8 @@ private:
                 }
             } else if (c == '/') {
                 /* Skip double separator (keep root) */
-                nextc();
-                leadsep = false;
+                if (!leadsep)
+                    nextc();
                 continue;
             }
 
